@@ -232,7 +232,7 @@ class Function:
 
         async def task_unique(name, kill_me=False):
             """Implement task.unique()."""
-            name = f"{ctx.get_global_ctx_name()}.{name}"
+            name = (ctx.get_global_ctx_name(), name)
             curr_task = asyncio.current_task()
             if name in cls.unique_name2task:
                 task = cls.unique_name2task[name]
@@ -285,15 +285,15 @@ class Function:
 
         def user_task_name2id(name=None):
             """Implement task.name2id()."""
-            prefix = f"{ctx.get_global_ctx_name()}."
+            ctx_name = ctx.get_global_ctx_name()
             if name is None:
                 ret = {}
-                for task_name, task_id in cls.unique_name2task.items():
-                    if task_name.startswith(prefix):
-                        ret[task_name[len(prefix) :]] = task_id
+                for (task_ctx, task_name), task_id in cls.unique_name2task.items():
+                    if task_ctx == ctx_name:
+                        ret[task_name] = task_id
                 return ret
-            if prefix + name in cls.unique_name2task:
-                return cls.unique_name2task[prefix + name]
+            if (ctx_name, name) in cls.unique_name2task:
+                return cls.unique_name2task[(ctx_name, name)]
             raise NameError(f"task name '{name}' is unknown")
 
         return user_task_name2id
@@ -311,7 +311,7 @@ class Function:
     @classmethod
     def unique_name_used(cls, ctx, name):
         """Return whether the current unique name is in use."""
-        name = f"{ctx.get_global_ctx_name()}.{name}"
+        name = (ctx.get_global_ctx_name(), name)
         return name in cls.unique_name2task
 
     @classmethod
